@@ -259,6 +259,23 @@ EXTRA_R = {
 }
 
 
+def dir_failure_play(binpath):
+    """A directory operation that fails (the output directory lies under a
+    regular file) is a documented cause of a non-zero status."""
+    tmp = tempfile.mkdtemp(prefix="shk-c03-dir-")
+    try:
+        with open(os.path.join(tmp, "play.cfg"), "w") as f:
+            f.write(UPLOAD_CFG)
+        open(os.path.join(tmp, "blocker"), "w").close()
+        t0 = time.time()
+        p = subprocess.run([binpath, "-o", "blocker/out", "--disable-plots", "-q", "play.cfg"], cwd=tmp, stdout=subprocess.PIPE,
+                           stderr=subprocess.STDOUT, timeout=120, text=True, errors="replace", env=dict(os.environ, SHELL="/bin/bash"))
+        return {"name": "output-directory-under-a-regular-file", "early": False, "exit": p.returncode, "expected_nonzero": True, "foul_flag": None,
+                "wall_s": round(time.time() - t0, 2), "output_tail": p.stdout[-1500:], "config": UPLOAD_CFG, "args": "-o blocker/out (blocker is a regular file)"}
+    finally:
+        shutil.rmtree(tmp, ignore_errors=True)
+
+
 def run_play(binpath, name, early, keepdir=None):
     if name in EXTRA_R:
         d = dict(cleanup="true", spot="echo s=7; sleep 30", b="ok", aud="  al expects always: [x s] < 5", interp="")
@@ -336,6 +353,7 @@ def run(tier, seed):
     with concurrent.futures.ThreadPoolExecutor(max_workers=12) as ex:
         sig_futures = [ex.submit(signalled_play, bins["shakespeare"], sn) for sn in ("SIGTERM", "SIGHUP", "SIGINT")]
         up_futures = [ex.submit(upload_play, bins["shakespeare"], n) for n in UPLOADS]
+        up_futures.append(ex.submit(dir_failure_play, bins["shakespeare"]))
         plays = list(ex.map(lambda a: run_play(bins["shakespeare"], a[0], a[1]), jobs))
         sig_plays = [f.result() for f in sig_futures]
         plays += [f.result() for f in up_futures]
